@@ -94,7 +94,7 @@ func (ts *TS) runFn(fr *Frame, initA string, env Env, trail []string) []TSOut {
 	if len(fn.Blocks) == 0 {
 		return []TSOut{{A: initA, Kind: "return", Trail: trail}}
 	}
-	mkey := fmt.Sprintf("%s|%s|%s", fr.chain(), initA, env.String())
+	mkey := fmt.Sprintf("%s|%s|%s", fr.chainKey(), initA, env.String())
 	if r, ok := ts.memo[mkey]; ok {
 		// re-attach the caller's trail
 		out := make([]TSOut, len(r))
@@ -150,6 +150,13 @@ func (ts *TS) runFn(fr *Frame, initA string, env Env, trail []string) []TSOut {
 						kv, okc = k.Value, true
 					} else if v, has := it.env[envKey{e, -1, ""}]; has {
 						kv, okc = v, true
+					} else if v, ok := ts.Ev.eval(e, it.env, fr); ok {
+						// computed values are tracked only where they cannot grow without bound:
+						// booleans anywhere, other kinds on forward (non-loop) edges
+						back := it.b == it.pred || it.b.Dominates(it.pred)
+						if v.Kind() == constant.Bool || !back {
+							kv, okc = v, true
+						}
 					}
 				}
 				us = append(us, upd{envKey{phi, -1, ""}, kv, okc})
